@@ -67,8 +67,14 @@ func build(p program, opts model.Options) *rux.Router {
 	for i, d := range p.tb.Routes {
 		name := d.Name()
 		rt := r.AddNamed(name, d.P.String(), func(c *rux.Context) {
-			// handlers treat Params as read-only (precondition of the property)
 			c.WriteString("[" + name + " " + paramsText(c.Params) + "]")
+			// the map belongs to this request: the handler may use it as scratch space afterwards
+			for k := range c.Params {
+				c.Params[k] = "rewritten-by-an-earlier-handler"
+			}
+			if c.Params != nil {
+				c.Params["added-by-an-earlier-handler"] = "x"
+			}
 		}, d.Methods...)
 		for k := 0; k < p.routeMws[i]; k++ {
 			rt.Use(mw(fmt.Sprintf("%sm%d", name, k)))
@@ -108,6 +114,9 @@ func observe(r *rux.Router, method, path string) obs {
 		o.Opts = fmt.Sprint(rt.Opts)
 	}
 	o.Params = paramsText(ps)
+	for k := range ps { // ... and so may the caller of Match with the map it got
+		ps[k] = "rewritten-by-the-caller-of-Match"
+	}
 	al := append([]string{}, alm...)
 	sort.Strings(al)
 	o.Allowed = strings.Join(al, ",")
